@@ -44,15 +44,12 @@ def handle (op : String) (j : Json) : Except String Json :=
   | "c17.model" => do
     let gap ← getRat j "gap"
     let thr ← getRat j "thr"
-    let scalar ← getBool j "scalar"
     let extras ← getArr rowOf? j "extras"
     let hits ← getArr rowOf? j "hits"
     let holds ← getArr rowOf? j "holds"
     let m : MapM Unit := ⟨extras, hits, holds, ()⟩
-    match fullLn scalar gap thr m with
-    | .ok r => .ok (okJson (obj [("hits", rowsToJson r.hits), ("holds", rowsToJson r.holds),
-                                  ("extras", rowsToJson r.extras)]))
-    | .error e => .ok (errJson e.toString)
+    let r := fullLn gap thr m
+    .ok (okJson (obj [("hits", rowsToJson r.hits), ("holds", rowsToJson r.holds), ("extras", rowsToJson r.extras)]))
   | "c17.variants" => do
     let gap ← getRat j "gap"
     let thr ← getRat j "thr"
@@ -73,8 +70,8 @@ def handle (op : String) (j : Json) : Except String Json :=
     .ok (okJson (listToJson ratToJson (margins gap thr rows)))
   | "c17.games" =>
     .ok (okJson (listToJson (fun g : GameInfo =>
-      obj [("name", Json.str g.name), ("scalar", Json.bool g.scalarDefaults),
-           ("extra", listToJson (fun p : String × Bool => Json.arr #[Json.str p.1, Json.bool p.2]) g.extraLists)]) games))
+      obj [("name", Json.str g.name), ("from_dict", Json.bool g.fromDictFills),
+           ("stacked", listToJson Json.str g.stackedLists)]) games))
   | _ => .error s!"unknown op {op}"
 
 end Reamber.C17
